@@ -14,6 +14,7 @@ RUNS = {"quick": 12000, "thorough": 250000}
 BUDGET_S = {"quick": 60, "thorough": 900}
 RULE = ("seeded scenario scripts: mixed valid / malformed / unknown-task messages, bursts and trickles, stop event or "
         "max_tasks_to_execute in about half of the runs, stop instants biased to look-ahead/hand-over/poll boundaries; "
+        "'no limit' spelled None / 0 / negative, task names re-registered with a function of the other kind, 4-15 s bodies, 5% of the runs with warnings as errors; "
         "non-trivial = two deliveries overlapped in callback() or a fault/stop fired; distinct = distinct interleaving signature")
 
 KNOBS = {
